@@ -8,6 +8,7 @@
 //   feed <kind> <param> <sched> x<hex>              ARBITRARY bytes pushed into a receiver (hostile input)
 //   share <enc> <unit A> <unit B> <unit S>          S tagged for multi-gateway reuse, sent after A on link 1 and after B on link 2
 //   bigws <dir> <flattened size>                    one big Message through a WebSocket pair
+//   tcache <enc>/<cacheBytes> <id>/<tsize>/x<layout>/x<msg> ...   template-cache protocol: frame form chosen per Message, deliveries
 // kinds / param:  bin <enc 0..9> | tmpl <enc>/<cacheBytes> | text <eol 0=CRLF 1=LF 2=CR> | raw <minChunk> | slip 0
 //                 | ws <dir 0=server->client 1=client->server>/<handshake 0=none 1=whole 2=halves 4=byte by byte> or ws <dir>/3/<cut after byte>
 //                 | m2c 0 | c2m 0 | u2c 0 | c2u 0
@@ -615,9 +616,79 @@ struct GwEngine : public Engine
       return res;
    }
 
+   // what DoesMessageMatchTemplate() compares: the flattenable fields in order (name, type code, item count), recursively; no what-codes
+   static void layoutOf(const Message & m, std::string & out)
+   {
+      out += "{";
+      for (MessageFieldNameIterator it = m.GetFieldNameIterator(); it.HasData(); it++)
+      {
+         const String & fn = it.GetFieldName();
+         uint32 tc = 0, cnt = 0;
+         if ((m.GetInfo(fn, &tc, &cnt).IsError())||(tc == B_POINTER_TYPE)||(tc == B_TAG_TYPE)) continue;
+         out += hexOf((const uint8_t *) fn.Cstr(), fn.Length()) + ":" + u64s(tc) + ":" + u64s(cnt);
+         if (tc == B_MESSAGE_TYPE) for (uint32 i=0; i<cnt; i++) {ConstMessageRef sub; if ((m.FindMessage(fn, i, sub).IsOK())&&(sub())) layoutOf(*sub(), out);}
+         out += ";";
+      }
+      out += "}";
+   }
+   // the token of a tcache unit: <template id>/<template size>/x<layout>/x<flattened Message>, all computed by the real code
+   static std::string tcacheUnit(const std::string & flat)
+   {
+      Message m; if (m.UnflattenFromBytes((const uint8 *) flat.data(), (uint32) flat.size()).IsError()) return "";
+      MessageRef t = m.CreateMessageTemplate(); if (t() == NULL) return "";
+      std::string lay; layoutOf(m, lay);
+      return u64s(m.TemplateHashCode64()) + "/" + u64s(t()->FlattenedSize()) + "/" + hexOf(lay) + "/" + hexOf(flat);
+   }
+
+   // tcache <enc>/<cacheBytes> <unit> ...: the template-cache protocol.  A unit carries, next to the Message, its template id, template
+   // size and layout AS THE REAL CODE COMPUTES THEM (re-checked here: a wrong claim is a bad-op); the model runs both ends' LRU caches on
+   // these.  Result: the frame form the sender chose for each Message, read off the wire (C = full Message + create-template flag,
+   // T = payload-only for a cached template, P = plain), receiver error / drained, number delivered.
+   std::string doTcache(const std::vector<std::string> & t)
+   {
+      if (t.size() < 2) return "bad-op";
+      Link * L = makeLink("tmpl", t[1]);
+      if (L == NULL) return "bad-op";
+      bool bad = false;
+      for (size_t i=2; (i<t.size())&&(!bad); i++)
+      {
+         std::vector<std::string> p = split(t[i], '/');
+         std::string flat;
+         if ((p.size() != 4)||(!unhex(p[3], flat))||(tcacheUnit(flat) != t[i])||(!L->tx->add(p[3], L->expect))) bad = true;
+      }
+      if (bad) {delete L; return "bad-op";}
+      std::vector<uint32_t> none;
+      for (size_t round=0; round<t.size()+8; round++)
+      {
+         L->txc.setGrants(none, true); L->rxc.setGrants(none, true);
+         const int64_t o = L->tx->out(NOLIM), r = L->rx->in(NOLIM);
+         if ((L->rx->err())||((o <= 0)&&(r <= 0))) break;
+      }
+      std::string kinds;
+      {
+         const std::string & w = L->fwd.log; size_t pos = 0;
+         while(pos+8 <= w.size())
+         {
+            const uint32_t lw = ((uint8_t) w[pos]) | (((uint8_t) w[pos+1])<<8) | (((uint8_t) w[pos+2])<<16) | (((uint32_t)(uint8_t) w[pos+3])<<24);
+            const bool create = (lw & 0x80000000u) != 0, payload = (((uint8_t) w[pos+7]) & 0x80) != 0;
+            kinds.push_back(payload ? 'T' : (create ? 'C' : 'P'));
+            pos += 8 + (size_t) (lw & 0x7FFFFFFFu);
+         }
+      }
+      const bool drained = (!L->tx->hasOut())&&(L->fwd.q.empty());
+      const std::string res = "ok k=" + kinds + " end=" + u64s(L->rx->err() ? 1 : 0) + "/" + u64s(drained ? 1 : 0) + " n=" + u64s(L->deliv.units.size());
+      if (L->rx->err()) oracleFail("templating receiver reports an error on a stream produced by the matching sender (frame forms " + kinds + ")");
+      else if (L->tx->err()) oracleFail("templating sender reports an error");
+      else if (L->deliv.units.size() != L->expect.units.size()) oracleFail("sent " + u64s(L->expect.units.size()) + " units, delivered " + u64s(L->deliv.units.size()));
+      else if (!prefixOk(*L)) oracleFail("a delivered unit differs from the unit sent");
+      delete L;
+      return res;
+   }
+
    virtual std::string step(const std::vector<std::string> & t)
    {
       if (t[0] == "share") return doShare(t);
+      if (t[0] == "tcache") return doTcache(t);
       if (t[0] == "bigws") return doBigWs(t);
       if (t[0] == "run")  return doRun(t, false);
       if (t[0] == "wire") return doRun(t, true);
